@@ -27,6 +27,8 @@ func (s *Syncer) SendOnce(ctx context.Context, env *lmdb.Env) (txnID header.TxnI
 	msg.Meta.GenerationID = s.generationID()
 
 	t0 := time.Now() // for performance measurements
+	t0 = verifClock(t0)
+	s.verifYield("send.begin")
 
 	// Snapshot timestamp determined within transaction
 	var ts time.Time
@@ -68,6 +70,7 @@ func (s *Syncer) SendOnce(ctx context.Context, env *lmdb.Env) (txnID header.TxnI
 
 		// Determine snapshot timestamp after we opened the transaction
 		ts = time.Now()
+		ts = verifClock(ts)
 		tTxnAcquire = ts
 		tsNano := header.TimestampFromTime(ts)
 		msg.Meta.TimestampNano = uint64(tsNano)
@@ -128,6 +131,7 @@ func (s *Syncer) SendOnce(ctx context.Context, env *lmdb.Env) (txnID header.TxnI
 		return 0, err
 	}
 	tDumped := time.Now()
+	s.verifYield("send.after_txn")
 
 	// If no actual changes were made, LMDB will not record the transaction
 	// and reuse the ID the next time, so we need to adjust the txnID we return.
@@ -190,6 +194,7 @@ func (s *Syncer) SendOnce(ctx context.Context, env *lmdb.Env) (txnID header.TxnI
 	metricSnapshotsLastTimestamp.WithLabelValues(s.name).Set(float64(ts.UnixNano()) / 1e9)
 	metricSnapshotsLastSize.WithLabelValues(s.name).Set(float64(len(out)))
 
+	s.verifYield("send.before_store")
 	// Send it to storage
 	for i := 0; i < s.c.StorageRetryCount || s.c.StorageRetryForever; i++ {
 		metricSnapshotsStoreCalls.Inc()
@@ -260,6 +265,7 @@ func (s *Syncer) SendOnce(ctx context.Context, env *lmdb.Env) (txnID header.TxnI
 		s.lastSnapshotTime = time.Now()
 	}
 
+	s.verifYield("send.end")
 	// Tell the cleaner which snapshots made by other instances have been
 	// incorporated in the last snapshot that we sent.
 	s.cleaner.SetCommitted(s.lastByInstance)
